@@ -1055,7 +1055,10 @@ pub fn explore_batch_isolated(prop: &dyn Property, tier: Tier, seed: u64, runs: 
         .filter(|p| p.exists())
         .unwrap_or_else(|| std::env::current_exe().expect("current_exe"));
     let nchild = nworkers.max(1) as u64;
-    let per = runs.div_ceil(nchild).max(1);
+    // work queue of run ranges: small enough to balance stragglers and to lose little when a
+    // child dies (the rest of its range is not explored), large enough to amortise start-up
+    let per = runs.div_ceil(nchild * 6).max(20).min(runs.max(1));
+    let next_chunk = AtomicU64::new(0);
     let mut out = BatchResult { stats: Stats::default(), fails: vec![], harness_errors: vec![], runs };
     struct ChildState {
         last_intent: Option<(Instant, String)>,
@@ -1063,15 +1066,17 @@ pub fn explore_batch_isolated(prop: &dyn Property, tier: Tier, seed: u64, runs: 
     }
     let results: Mutex<Vec<(u64, Vec<String>, Option<String>, String)>> = Mutex::new(vec![]); // (from, lines F/S/H, abnormal last intent, how)
     std::thread::scope(|sc| {
-        for k in 0..nchild {
-            let from = k * per;
-            let to = ((k + 1) * per).min(runs);
-            if from >= to {
-                continue;
-            }
+        for _ in 0..nchild {
             let exe = exe.clone();
             let results = &results;
-            sc.spawn(move || {
+            let next_chunk = &next_chunk;
+            sc.spawn(move || loop {
+                let k = next_chunk.fetch_add(1, Ordering::Relaxed);
+                let from = k * per;
+                let to = ((k + 1) * per).min(runs);
+                if from >= to {
+                    break;
+                }
                 let mut child = match Command::new(&exe)
                     .args(["explore-child", prop.id(), tier.name(), &seed.to_string(), &from.to_string(), &to.to_string()])
                     .stdout(Stdio::piped())
@@ -1081,7 +1086,7 @@ pub fn explore_batch_isolated(prop: &dyn Property, tier: Tier, seed: u64, runs: 
                     Ok(c) => c,
                     Err(e) => {
                         results.lock().unwrap().push((from, vec![format!("H {}", json!(format!("cannot spawn child: {e}")))], None, String::new()));
-                        return;
+                        break;
                     }
                 };
                 let stdout = child.stdout.take().unwrap();
